@@ -53,7 +53,7 @@ ASSUMPTIONS = ["MiniPy is deliberately UNDEFINED (MiniPyTypeError) on dynamicall
 
 ATTR_VARS = ["self.pre", "self.acc"]          # attribute variables; self.acc is also an assignment / append target
 STRS = ["", "a", "-", "--", "_", ".", "a_b", "--x.y", "a.b.c", "-f", "x-y", "__", "ab", "A b", "{}", "it's", 'q"q', "\\", "aa",
-        "--no", "a.", ".a", "b", "{x}", "-_-"]
+        "--no", "a.", ".a", "b", "{x}", "-_-", " a ", "a#b ", "  ", "x: int", "a'''b"]
 CHARS = ["-", "_", ".", "a", " ", "b", "x"]
 NAMES = ["a", "b", "c", "s", "t", "xs", "ys", "n", "m", "k", "flag", "opt", "parts", "acc", "item", "x", "y", "v", "w"]
 EXC = ["NotImplementedError", "ValueError", "KeyError", "RuntimeError", "InconsistentArgumentError"]
@@ -167,7 +167,16 @@ class G:
 
     def e_str(self, t, scope, d):
         rng = self.rng
-        c = rng.choice(["fmt", "fmt", "replace", "join", "slice", "cond", "lstrip", "repeat", "add", "index", "andor", "var", "mul"])
+        c = rng.choice(["fmt", "fmt", "replace", "join", "slice", "cond", "lstrip", "repeat", "add", "index", "andor", "var", "mul",
+                        "strip", "partition", "charat", "slice2"])
+        if c == "strip":
+            return ["EStrip", self.str_arg(scope, d)]
+        if c == "partition":
+            return ["EIndex", ["EPartition", self.str_arg(scope, d), rng.choice(["#", ":", "=", ".", "--", "a", "'" * 3])], rng.choice([0, 1, 2])]
+        if c == "charat":
+            return ["EGetItem", self.maybe_fault([N, NONE, B], scope, d) or self.e(S, scope, d), self.nat_nonlit(scope, d)]
+        if c == "slice2":
+            return self.slice2(S, scope, d)
         if c == "mul":
             a = self.e(S, scope, d)
             if a[0] == "EStr":                   # a literal left operand of * is the one-character repetition form
@@ -211,6 +220,19 @@ class G:
             return [rng.choice(["EAnd", "EOr"]), self.e(S, scope, d), self.e(S, scope, d)]
         return self.e(S, scope, 0)
 
+    def nat_nonlit(self, scope, d):
+        n = self.maybe_fault([S, NONE, L(N)], scope, d) or self.e(N, scope, min(d, 1))
+        if n[0] in ("ENat", "EBool"):             # a literal subscript is the EIndex / ESliceFrom form
+            n = ["EAdd", n, ["ENat", 0]] if n[0] == "ENat" else ["ELen", ["EStr", "ab"]]
+        return n
+
+    def slice2(self, t, scope, d):
+        rng = self.rng
+        seq = self.maybe_fault([N, NONE, B], scope, d) or self.e(t, scope, d)
+        lo = None if rng.random() < 0.4 else self.nat_nonlit(scope, d)
+        hi = None if (lo is not None and rng.random() < 0.4) else self.nat_nonlit(scope, d)
+        return ["ESlice", seq, lo, hi]
+
     def index_of(self, t, scope, d):
         rng = self.rng
         seq = self.maybe_fault([N, NONE, B], scope, d) or self.e(rng.choice([L(t), L(t), T(t)]), scope, d)
@@ -218,7 +240,10 @@ class G:
 
     def e_nat(self, t, scope, d):
         rng = self.rng
-        c = rng.choice(["len", "len", "add", "sub", "mul", "nest", "cond", "index", "var"])
+        c = rng.choice(["len", "len", "add", "sub", "mul", "nest", "cond", "index", "var", "indexof"])
+        if c == "indexof":
+            return ["EIndexOf", self.maybe_fault([N, NONE], scope, d) or self.e(S, scope, d),
+                    self.maybe_fault([N, NONE, L(S)], scope, d) or self.e(S, scope, d)]
         if c == "len":
             arg = self.maybe_fault([N, NONE, B], scope, d) or self.e(rng.choice([S, L(S), L("any"), T(S)]), scope, d)
             return ["ELen", arg]
@@ -245,7 +270,10 @@ class G:
 
     def e_bool(self, t, scope, d):
         rng = self.rng
-        c = rng.choice(["starts", "ends", "eq", "eq", "eqx", "in_str", "in_list", "in_x", "not", "gt", "isnone", "isinst", "andor", "cond", "all"])
+        c = rng.choice(["starts", "ends", "eq", "eq", "eqx", "in_str", "in_list", "in_x", "not", "gt", "isnone", "isinst", "andor", "cond", "all",
+                        "isident"])
+        if c == "isident":
+            return ["EIsIdent", self.str_arg(scope, d)]
         if c == "all":
             w = rand_type(rng, 1)
             it = self.maybe_fault([N, NONE, B], scope, d) or self.e(L(w), scope, d)
@@ -302,8 +330,18 @@ class G:
         rng, u = self.rng, t[1]
         alts = ["lit", "slice", "comp", "comp", "add", "tolist", "mul", "cond", "index", "var"]
         if u == S:
-            alts += ["split", "split", "dedupe", "dedupe2", "sortlen", "comp"]
+            alts += ["split", "split", "dedupe", "dedupe2", "sortlen", "comp", "splitn", "splitn"]
+        if u == N:
+            alts += ["range", "range"]
+        alts += ["slice2"]
         c = rng.choice(alts)
+        if c == "splitn":
+            return ["ESplitN", self.str_arg(scope, d), self.maybe_fault([N, L(S)], scope, d) or self.e(S, scope, d), rng.choice([0, 1, 1, 2, 2, 5])]
+        if c == "range":
+            return ["EToList", ["ERange", self.maybe_fault([S, NONE], scope, d) or self.e(N, scope, min(d, 1)),
+                                self.maybe_fault([S, NONE, L(N)], scope, d) or self.e(N, scope, min(d, 1))]]
+        if c == "slice2":
+            return self.slice2(t, scope, d)
         if c == "lit":
             return ["EList", [self.e(u, scope, d) for _ in range(rng.choice([0, 1, 2, 3]))]]
         if c == "split":
@@ -1048,6 +1086,22 @@ def py_expr(e):
         return _call(ast.Name(id="sorted", ctx=ast.Load()), py_expr(e[1]), keywords=kws)
     if k == "ECountDistinct":
         return _call(ast.Name(id="len", ctx=ast.Load()), _call(ast.Name(id="set", ctx=ast.Load()), py_expr(e[1])))
+    if k == "EStrip":
+        return _meth(py_expr(e[1]), "strip")
+    if k == "EIsIdent":
+        return _meth(py_expr(e[1]), "isidentifier")
+    if k == "EPartition":
+        return _meth(py_expr(e[1]), "partition", _c(e[2]))
+    if k == "ESplitN":
+        return ast.Call(func=ast.Attribute(value=py_expr(e[1]), attr="split", ctx=ast.Load()), args=[py_expr(e[2])],
+                        keywords=[ast.keyword(arg="maxsplit", value=_c(int(e[3])))])
+    if k == "EIndexOf":
+        return _meth(py_expr(e[1]), "index", py_expr(e[2]))
+    if k == "ERange":
+        return _call(ast.Name(id="range", ctx=ast.Load()), py_expr(e[1]), py_expr(e[2]))
+    if k == "ESlice":
+        return ast.Subscript(value=py_expr(e[1]), slice=ast.Slice(lower=None if e[2] is None else py_expr(e[2]),
+                                                                  upper=None if e[3] is None else py_expr(e[3]), step=None), ctx=ast.Load())
     raise ValueError(f"unknown expression constructor {k}")
 
 
@@ -1256,6 +1310,17 @@ def coq_expr(e):
         return f"(ESortKey {coq_expr(e[1])} {cstr(e[2])} {coq_expr(e[3])} {'true' if e[4] else 'false'})"
     if k == "ECountDistinct":
         return f"(ECountDistinct {coq_expr(e[1])})"
+    if k in ("EStrip", "EIsIdent"):
+        return f"({k} {coq_expr(e[1])})"
+    if k == "EPartition":
+        return f"(EPartition {coq_expr(e[1])} {cstr(e[2])})"
+    if k == "ESplitN":
+        return f"(ESplitN {coq_expr(e[1])} {coq_expr(e[2])} {int(e[3])})"
+    if k in ("EIndexOf", "ERange"):
+        return f"({k} {coq_expr(e[1])} {coq_expr(e[2])})"
+    if k == "ESlice":
+        o = lambda x: "None" if x is None else f"(Some {coq_expr(x)})"
+        return f"(ESlice {coq_expr(e[1])} {o(e[2])} {o(e[3])})"
     raise ValueError(k)
 
 
@@ -1436,7 +1501,7 @@ def _translate(src):
     mod = ast.parse(src)
     kw = dict(attr_vars=ATTR_VARS, prims={"utils.get_nesting_level": "ENestLevel", "utils.split_dest": "ESplitDest"}, objects=True,
               consts={"argparse.SUPPRESS": "argparse.SUPPRESS", "dataclasses.MISSING": "dataclasses.MISSING"}, tables=["rec.table", "table"],
-              record_classes=REC_CLASSES, record_ctors={"Pair": ["first", "second"]}, while_fuel=WHILE_FUEL)
+              record_classes=REC_CLASSES, record_ctors={"Pair": ["first", "second"]}, while_fuel=WHILE_FUEL, strings=True)
     procs = {f.name: (f, minipy.Ctx(**kw), None) for f in mod.body[:-1]}
     c = minipy.Ctx(attr_targets=["self.acc"], procs=procs, refs=("FIELDS", {"w"}), **kw)
     return minipy.method_block(mod.body[-1], c)[0]
